@@ -208,6 +208,13 @@ def inject(sign, d, m, s, numpy_forms=False, obj_forms=False):
         if s == 0 and m == 0:
             out.append(('dec', sign * d))
             out.append(('gon', np.int64(sign * d)))
+            # whole degrees / gradians / HP degrees in every exact numeric spelling (numpy integers of every width incl. unsigned)
+            from gpmc import cfg as _cfg
+            for nm, x in _cfg.exact_forms(float(sign * d)):
+                if nm not in ('np64', 'np0d', 'npi64', 'int'):
+                    out.append(('dec', x))
+                    out.append(('hp', x))
+                    out.append(('gon', x))
     if obj_forms:
         # the same DMS / DDM angle reached by other legal constructions: public fields assigned after construction, the
         # documented formatted string, the object rebuilt from its own text form, fields re-assigned after the object was used
@@ -346,7 +353,7 @@ def gen(tier, seed):
         for m in range(60):
             yield {'deg': d, 'min': m, 'secs': [0, 59], 'depth': 1}
     # (5) numpy-scalar / int forms of the same numbers (depth 2 from the injected form)
-    for d in (0, 1, 59, 127, 359):
+    for d in (0, 1, 10, 19, 59, 127, 128, 200, 359):
         for m in (0, 30, 59):
             yield {'deg': d, 'min': m, 'secs': [0, 30], 'depth': 2, 'numpy': True}
     # (5b) DMS objects whose seconds are within a few ulps of 60 (with minutes 59 and otherwise), injected as DMS / DDM objects
